@@ -589,7 +589,10 @@ fn cms_xml(rel: &str) -> Vec<u8> {
 }
 
 impl Fx {
-    fn load(ctx: &Ctx) -> Fx {
+    fn load(ctx: &Ctx) -> Fx { Fx::load_opt(ctx, true) }
+    /// `xml` = false: no XML is parsed while the fixtures are built (value constructors and DER decoding only); the
+    /// CSR and the certificate that come out of captured RFC 6492 documents are replaced by copies of captured DER ones.
+    fn load_opt(ctx: &Ctx, xml: bool) -> Fx {
         let mut certs = Vec::new();
         for (n, p) in [("ta", "repository/ta.cer"), ("ca1", "repository/ca1.cer"), ("router", "repository/router.cer")] {
             match Cert::decode(read(p).as_slice()) { Ok(c) => certs.push((n, c)), Err(e) => ctx.machinery_error(format!("fixture {p}: {e}")) }
@@ -597,11 +600,17 @@ impl Fx {
         let mut csrs = Vec::new();
         match RpkiCaCsr::decode(read("ca/drl-csr.der").as_slice()) { Ok(c) => csrs.push(("drl", c)), Err(e) => ctx.machinery_error(format!("fixture drl-csr: {e}")) }
         // a second CSR and further certificates: out of the captured RFC 6492 exchanges
+        if !xml {
+            if let Some(c) = csrs.first().cloned() { csrs.push(("copy of drl", c.1)) }
+            if let Some(c) = certs.get(1).cloned() { certs.push(("copy of ca1", c.1)) }
+        }
+        else {
         if let Ok(m) = prov::Message::decode(cms_xml("ca/rfc6492/issue.der").as_slice()) {
             if let prov::Payload::Issue(r) = m.into_payload() { csrs.push(("issue.der", r.unpack().2)) }
         }
         if let Ok(m) = prov::Message::decode(cms_xml("ca/rfc6492/issue-response.der").as_slice()) {
             if let prov::Payload::IssueResponse(r) = m.into_payload() { certs.push(("issued", r.into_issued().unpack().2)) }
+        }
         }
         let idcerts = vec![("id_ta", read("ca/id_ta.cer")), ("id_afrinic", read("ca/id_afrinic.cer")),
             ("1octet", vec![0x30]), ("2octets", vec![0xff, 0x00]), ("4octets", b"<&\"'".to_vec()), ("1KiB", vec![0x5A; 1024])];
@@ -3153,6 +3162,18 @@ fn text(v: &[u8]) -> String { String::from_utf8_lossy(v).into_owned() }
 /// One message of every type of the three protocols (and a few more shapes): special characters in every
 /// escaped position, tags absent / empty / present, short and long values, with and without certificates.
 fn message_menu(fx: &Fx) -> Vec<(&'static str, AnyMsg)> {
+    let mut v = message_menu_built(fx);
+    let failed_pdu = format!("<msg xmlns=\"{PUB_NS}\" version=\"4\" type=\"reply\"><report_error error_code=\"no_object_present\" tag=\"t&amp;1\"><error_text>text with \"quotes\" and 'apostrophes' ></error_text><failed_pdu><publish tag=\"x\" uri=\"rsync://h/m/a&amp;b\" hash=\"{}\">QUJD</publish></failed_pdu></report_error></msg>", fx.hashes[2]);
+    // messages only a decoder can make (failed_pdu, tag on a child request)
+    if let Ok(m) = pub_parse(failed_pdu.as_bytes()) { v.push(("pub.error_reply.failed_pdu", AnyMsg::Pub(m))) }
+    if let Ok(m) = idx::ChildRequest::parse(CHILD_WITH_TAG.as_bytes()) { v.push(("idex.child_request.tag", AnyMsg::Child(m))) }
+    v
+}
+
+const CHILD_WITH_TAG: &str = "<child_request xmlns=\"http://www.hactrn.net/uris/rpki/rpki-setup/\" version=\"1\" child_handle=\"Carol/1\" tag=\"t&amp;&lt;&quot;&#39;g\"><child_bpki_ta>QUJD</child_bpki_ta></child_request>";
+
+/// The messages of the menu that the public constructors make: nothing is written or parsed here.
+fn message_menu_built(fx: &Fx) -> Vec<(&'static str, AnyMsg)> {
     let special = fx.texts.iter().position(|t| t == "<&").map(|p| p - 1).unwrap_or(2);
     let t = |s: &str| Some(s.to_string());
     let cl = Class { name: special, url: 3, asn: 5, v4: 7, v6: 7, time: 0, signing: 0, issued: vec![Issued { uri: 4, la: 6, lb: 8, lc: 8, cert: 1 }] };
@@ -3167,10 +3188,8 @@ fn message_menu(fx: &Fx) -> Vec<(&'static str, AnyMsg)> {
     long_delta.add_publish(publ::Publish::with_hash_tag(scale_uri(8), Base64::from_content(&pattern(100, 1))));
     let mut er = publ::ErrorReply::for_error(publ::ReportError::with_code(publ::ReportErrorCode::ObjectAlreadyPresent));
     er.add_error(publ::ReportError::with_code(publ::ReportErrorCode::OtherError));
-    let failed_pdu = format!("<msg xmlns=\"{PUB_NS}\" version=\"4\" type=\"reply\"><report_error error_code=\"no_object_present\" tag=\"t&amp;1\"><error_text>text with \"quotes\" and 'apostrophes' ></error_text><failed_pdu><publish tag=\"x\" uri=\"rsync://h/m/a&amp;b\" hash=\"{}\">QUJD</publish></failed_pdu></report_error></msg>", fx.hashes[2]);
-    let child_tag = format!("<child_request xmlns=\"{SETUP_NS}\" version=\"1\" child_handle=\"Carol/1\" tag=\"t&amp;&lt;&quot;&#39;g\"><child_bpki_ta>QUJD</child_bpki_ta></child_request>");
     let short_id = || Base64::from_content(&fx.idcerts[4].1);
-    let mut v: Vec<(&'static str, AnyMsg)> = vec![
+    vec![
         ("prov.list", AnyMsg::Prov(prov::Message::list(hd("child"), hd("Parent/1")))),
         ("prov.list.long-handles", AnyMsg::Prov(prov::Message::list(fx.handle(fx.h_a255), fx.handle(fx.h_slash255)))),
         // (a class without certificates: the certificate element is met in prov.issue_response, several classes and certificates among the predecessors)
@@ -3195,11 +3214,7 @@ fn message_menu(fx: &Fx) -> Vec<(&'static str, AnyMsg)> {
         ("idex.publisher_request", AnyMsg::Publisher(idx::PublisherRequest::new(short_id(), hd("Alice_Bob"), t("t&1")))),
         ("idex.repository_response", AnyMsg::Repo(idx::RepositoryResponse::new(short_id(), hd("Alice_Bob"), fx.services[fx.svc_plain].clone(), fx.rsyncs[3].clone(), Some(fx.httpss[4].clone()), t("t'1")))),
         ("idex.repository_response.minimal", AnyMsg::Repo(idx::RepositoryResponse::new(short_id(), hd("p"), fx.services[fx.svc_special].clone(), fx.rsyncs[0].clone(), None, None))),
-    ];
-    // messages only a decoder can make (failed_pdu, tag on a child request)
-    if let Ok(m) = pub_parse(failed_pdu.as_bytes()) { v.push(("pub.error_reply.failed_pdu", AnyMsg::Pub(m))) }
-    if let Ok(m) = idx::ChildRequest::parse(child_tag.as_bytes()) { v.push(("idex.child_request.tag", AnyMsg::Child(m))) }
-    v
+    ]
 }
 
 /// What a sink does once its budget of octets is used up.
@@ -3729,6 +3744,345 @@ fn space_environment(ctx: &Ctx, sh: &Shared) {
     sp.done(true, &format!("3 zones x {n} subjects"));
 }
 
+//--- process-level history: the first operation of a process
+//
+// State that is set once per process (a table built lazily in a static, a OnceLock filled by whichever caller
+// comes first) cannot be seen from inside this process: by the time a sequence space runs, the first caller of
+// every static has long been decided, and fresh threads share statics. So child processes of this binary each
+// perform ONE operation of the public API as the very first XML operation of their process (only value
+// constructors and DER decoding come before it) and then evaluate the subject set.
+
+use rpki::xml::decode as xd;
+use rpki::xml::encode as xe;
+
+/// The six ways the xml::encode API puts text into a document.
+#[derive(Clone, Copy, Debug, PartialEq, Eq)]
+enum XMode { Pcdata, Attr, EscapedPcdata, EscapedAttr, Raw, Base64 }
+const XMODES: [XMode; 6] = [XMode::Pcdata, XMode::Attr, XMode::EscapedPcdata, XMode::EscapedAttr, XMode::Raw, XMode::Base64];
+
+impl XMode {
+    fn name(self) -> &'static str {
+        match self { XMode::Pcdata => "Content::pcdata", XMode::Attr => "Element::attr", XMode::EscapedPcdata => "Text::write_escaped(TextEscape::Pcdata)",
+            XMode::EscapedAttr => "Text::write_escaped(TextEscape::Attr)", XMode::Raw => "Content::raw", XMode::Base64 => "Content::base64" }
+    }
+}
+
+/// The three implementations of xml::encode::Text.
+#[derive(Clone, Copy, Debug)]
+enum XForm { Str, Octets, Display }
+const XFORMS: [XForm; 3] = [XForm::Str, XForm::Octets, XForm::Display];
+
+/// A Display value that hands its (ASCII) text to the formatter in two pieces.
+struct Pieces<'a>(&'a str);
+impl std::fmt::Display for Pieces<'_> {
+    fn fmt(&self, f: &mut std::fmt::Formatter) -> std::fmt::Result { let k = self.0.len() / 2; f.write_str(&self.0[..k])?; f.write_str(&self.0[k..]) }
+}
+
+const XTEXTS: [&str; 3] = ["", "plain text", "a<b>c&d\"e'f"];
+
+/// One small document written through rpki::xml::encode with `txt` placed by `mode`; in the modes other than Attr no
+/// attribute is written before the text. Observation: the result, the verdict of this file's well-formedness checker and
+/// whether the text read back (references resolved by this file) is the text written -- not the octets: PCDATA may or may
+/// not escape '>' and the quotes, both spellings are right.
+fn xml_encode_op(mode: XMode, form: XForm, txt: &str, indent: Option<&'static str>, budget: Option<usize>) -> String {
+    const ROOT: xd::Name<'static, 'static> = xd::Name::unqualified(b"root");
+    const INNER: xd::Name<'static, 'static> = xd::Name::unqualified(b"inner");
+    const LAST: xd::Name<'static, 'static> = xd::Name::qualified(b"p", b"last");
+    use std::io::Write as _;
+    let mut sink = FaultySink::new(budget.unwrap_or(usize::MAX), Fault::Error);
+    macro_rules! with_text { ($t:ident => $e:expr) => { match form {
+        XForm::Str => { let $t: &str = txt; $e } XForm::Octets => { let $t: &[u8] = txt.as_bytes(); $e } XForm::Display => { let d = Pieces(txt); let $t = &d; $e } } } }
+    let res: Result<(), io::Error> = (|| {
+        match mode {
+            XMode::EscapedPcdata => { sink.write_all(b"<root>")?; with_text!(t => xe::Text::write_escaped(t, xe::TextEscape::Pcdata, &mut sink))?; sink.write_all(b"</root>") }
+            XMode::EscapedAttr => { sink.write_all(b"<root a=\"")?; with_text!(t => xe::Text::write_escaped(t, xe::TextEscape::Attr, &mut sink))?; sink.write_all(b"\"/>") }
+            _ => {
+                let mut w = xe::Writer::new(&mut sink);
+                if let Some(i) = indent { w.set_indent(i) }
+                if mode == XMode::Attr {
+                    with_text!(t => w.element(ROOT)?.attr("a", t)?.attr_opt("b", None::<&str>)?.attr_opt("c", Some("1"))?.content(|c| { c.element(INNER)?; Ok(()) }).map(|_| ()))?;
+                }
+                else {
+                    w.element(ROOT)?.content(|c| {
+                        c.element(INNER)?.content(|c| c.element(INNER)?.content(|c| with_text!(t => match mode { XMode::Pcdata => c.pcdata(t), XMode::Raw => c.raw(t), _ => c.base64(t) })).map(|_| ()))?;
+                        c.element_opt(None::<&u8>, INNER, |_, _| Ok(()))?;
+                        c.element_opt(Some(&1u8), LAST, |n, e| e.attr("xmlns:p", "urn:p")?.attr("n", n).map(|_| ()))
+                    })?;
+                }
+                w.done()
+            }
+        }
+    })();
+    let doc = text(&sink.got);
+    // a sink that fails: the result and how much it took (the cut document would show the spelling of the references)
+    if budget.is_some() { return format!("{:?}; the sink took {} octets", res.map_err(|e| e.to_string()), sink.got.len()) }
+    let verdict = match wf_check(&sink.got) {
+        Err(e) => format!("not well-formed ({e}): {doc}"),
+        Ok(sp) => {
+            let back = match mode {
+                XMode::Attr | XMode::EscapedAttr => sp.values.first().map(|&(_, a, b)| unescape_xml(&doc[a..b])),
+                XMode::Pcdata | XMode::EscapedPcdata => Some(sp.texts.first().map(|&(a, b)| unescape_xml(doc[a..b].trim())).unwrap_or_default()),
+                XMode::Raw | XMode::Base64 => None,
+            };
+            match back { Some(b) if b == txt.trim() => "well-formed, the text reads back as written".to_string(), Some(b) => format!("well-formed, THE TEXT READS BACK AS {b:?}: {doc}"), None => format!("well-formed: {doc}") }
+        }
+    };
+    format!("{:?}; {verdict}", res.map_err(|e| e.to_string()))
+}
+
+/// Any document of depth two (a root with attributes, children with attributes and optional text) read through
+/// rpki::xml::decode: start / start_with_limit, attributes, ascii_into, into_ascii_bytes, take_opt_element,
+/// take_opt_final_text, to_utf8, to_ascii, base64_decode, take_end, end.
+fn xml_walk(doc: &[u8], limit: Option<u64>) -> String {
+    let out = std::cell::RefCell::new(String::new());
+    let show = |e: xd::Element| -> Result<(), xd::Error> {
+        let mut o = out.borrow_mut();
+        o.push_str(&format!(" <{:?}", e.name()));
+        e.attributes(|k, v| {
+            let b = v.clone().into_ascii_bytes().map_err(|e| e.to_string());
+            let s = v.ascii_into::<String>().map_err(|e| e.to_string());
+            o.push_str(&format!(" {}={s:?}/{b:?}", text(k)));
+            Ok(())
+        })
+    };
+    let mut r = xd::Reader::new(doc);
+    let res: Result<(), xd::Error> = (|| {
+        let mut root = match limit { Some(l) => r.start_with_limit(&show, l)?, None => r.start(&show)? };
+        while let Some(mut c) = root.take_opt_element(&mut r, &show)? {
+            let t = c.take_opt_final_text(&mut r, |t| Ok::<_, xd::Error>(t.map(|t| format!("utf8={:?} ascii={:?} base64={:?}", t.to_utf8().map_err(|e| e.to_string()),
+                t.to_ascii().map_err(|e| e.to_string()), t.base64_decode().map(|v| hex(&v)).map_err(|e| e.to_string())))))?;
+            out.borrow_mut().push_str(&format!(" text: {t:?}"));
+        }
+        root.take_end(&mut r)?;
+        r.end()
+    })();
+    format!("{} => {:?}", out.borrow(), res.map_err(|e| e.to_string()))
+}
+
+/// `<a ..><b ..>text</b><c>optional text</c></a>` read through the other half of rpki::xml::decode: take_element,
+/// take_element_with_limit, take_text_with_limit, skip_opt_text, take_opt_element_with_limit.
+fn xml_walk_fixed(doc: &[u8]) -> String {
+    let out = std::cell::RefCell::new(String::new());
+    let show = |e: xd::Element| -> Result<(), xd::Error> {
+        let mut o = out.borrow_mut();
+        o.push_str(&format!(" <{:?}", e.name()));
+        e.attributes(|k, v| { o.push_str(&format!(" {}={:?}", text(k), v.ascii_into::<String>().map_err(|e| e.to_string()))); Ok(()) })
+    };
+    let mut r = xd::Reader::new(doc);
+    let res: Result<(), xd::Error> = (|| {
+        let mut root = r.start(&show)?;
+        let mut b = root.take_element_with_limit(&mut r, &show, 10_000)?;
+        let t = b.take_text_with_limit(&mut r, |t| Ok::<_, xd::Error>(t.to_ascii()?.into_owned()), 10_000)?;
+        out.borrow_mut().push_str(&format!(" text: {t:?}"));
+        b.take_end(&mut r)?;
+        let mut c = root.take_element(&mut r, &show)?;
+        c.skip_opt_text(&mut r)?;
+        let none = root.take_opt_element_with_limit(&mut r, &show, 10_000)?.is_none();
+        out.borrow_mut().push_str(&format!(" no further element: {none}"));
+        root.take_end(&mut r)?;
+        r.end()
+    })();
+    format!("{} => {:?}", out.borrow(), res.map_err(|e| e.to_string()))
+}
+
+/// Captured documents of every message kind: the files of test-data/ca and the XML inside the captured CMS wrappers
+/// (taken out through the DER decoder: no XML is read here).
+fn captured_documents() -> Vec<(String, Parser, Vec<u8>)> {
+    let mut v = Vec::new();
+    for f in ["not-performed-response.xml", "revoke-req.xml", "revoke-response.xml"] { v.push((format!("rfc6492/{f}"), Parser::Prov, read(&format!("ca/rfc6492/{f}")))) }
+    for f in ["issue.der", "list.der", "issue-response.der", "list-response.ber", "afrinic-response.der", "apnic-response.der", "apnic-testbed-response.der"] {
+        if let Ok(m) = SignedMessage::decode(read(&format!("ca/rfc6492/{f}")).as_slice(), false) { v.push((format!("the XML inside rfc6492/{f}"), Parser::Prov, m.content().to_bytes().to_vec())) }
+    }
+    for f in ["error-reply.xml", "list-reply-empty-short.xml", "list-reply-empty.xml", "list-reply-single.xml", "list-reply.xml", "list.xml", "publish-empty-short.xml", "publish-empty.xml", "publish-multi.xml", "publish-single.xml", "success-reply.xml"] {
+        v.push((format!("rfc8181/{f}"), Parser::Pub, read(&format!("ca/rfc8181/{f}"))))
+    }
+    if let Ok(m) = SignedMessage::decode(read("ca/sigmsg/pdu_200.der").as_slice(), false) { v.push(("the XML inside sigmsg/pdu_200.der".into(), Parser::Pub, m.content().to_bytes().to_vec())) }
+    for (f, p) in [("rpkid-child-id.xml", Parser::Child), ("afrinic-parent-response.xml", Parser::Parent), ("apnic-parent-response.xml", Parser::Parent), ("krill-0-9-parent-response.xml", Parser::Parent),
+        ("rpkid-parent-response-offer.xml", Parser::Parent), ("rpkid-parent-response-referral.xml", Parser::Parent), ("rpkid-publisher-request.xml", Parser::Publisher),
+        ("apnic-repository-response.xml", Parser::Repo), ("krill-0-9-repository-response.xml", Parser::Repo)] {
+        v.push((format!("rfc8183/{f}"), p, read(&format!("ca/rfc8183/{f}"))))
+    }
+    v
+}
+
+const WALK_DOCS: [(&str, &str); 9] = [
+    ("declaration, comments, namespace, every predefined reference, wrapped base64", "<?xml version=\"1.0\" encoding=\"UTF-8\"?>\n<!-- c --><r xmlns=\"urn:x\" a=\"p&amp;q &lt;&gt;&quot;&apos;&#65;\" b=\"\">\n  <e k=\"v\">t &amp; u &lt; v &gt; w</e><!-- c -->\n  <f/>\n  <g>QUJD\n REVG</g>\n</r>\n"),
+    ("no reference at all", "<r a=\"1\"><e>text</e><g>QQ==</g></r>"),
+    ("cut inside the second child", "<r a=\"p&amp;q\"><e k=\"v\">t</e><g>QU"),
+    ("an unknown reference in an attribute and in text", "<r a=\"&nope;\"><e>&nope;</e></r>"),
+    ("non-ASCII attribute and text", "<r a=\"\u{e9}\"><e>\u{e9}</e></r>"),
+    ("prefixed names", "<x:r xmlns:x=\"urn:x\" a=\"1\"><x:e>t</x:e><y:e xmlns:y=\"urn:y\"/></x:r>"),
+    ("an undeclared prefix", "<y:r a=\"1\"/>"),
+    ("an empty root", "<r/>"),
+    ("no element", "text only"),
+];
+
+/// The menu of first operations: every kind of public operation of rpki::xml and of the three protocols, successful and failing.
+/// Built from fixtures that were made without reading or writing XML (`Fx::load_opt(ctx, false)`, `message_menu_built`).
+fn first_operations<'a>(fx: &'a Fx, menu: &'a [(&'static str, AnyMsg)], files: &'a Files, captured: &'a [(String, Parser, Vec<u8>)]) -> Vec<(&'static str, String, Act<'a>)> {
+    use rpki_verif::engine::signer::{Kid, PoolSigner};
+    let mut v: Vec<(&'static str, String, Act<'a>)> = Vec::new();
+    v.push(("nothing", "no operation".into(), Box::new(String::new)));
+    // rpki::xml::encode
+    for mode in XMODES { for form in XFORMS { for txt in XTEXTS {
+        v.push(("xml::encode", format!("xml::encode: a document with {txt:?} ({form:?}) placed by {}", mode.name()), Box::new(move || xml_encode_op(mode, form, txt, None, None))));
+    }}}
+    for mode in XMODES { for budget in [9usize, 14] {
+        v.push(("xml::encode into a failing sink", format!("xml::encode: a document with {:?} (Str) placed by {} into a sink that returns an error after {budget} octets", XTEXTS[2], mode.name()), Box::new(move || xml_encode_op(mode, XForm::Str, XTEXTS[2], None, Some(budget)))));
+    }}
+    for indent in ["", "\t"] { for mode in [XMode::Pcdata, XMode::Attr] {
+        v.push(("xml::encode", format!("xml::encode: set_indent({indent:?}), then a document with {:?} (Display) placed by {}", XTEXTS[2], mode.name()), Box::new(move || xml_encode_op(mode, XForm::Display, XTEXTS[2], Some(indent), None))));
+    }}
+    // rpki::xml::decode
+    for (what, doc) in WALK_DOCS { v.push(("xml::decode", format!("xml::decode: a document read element by element ({what})"), Box::new(move || xml_walk(doc.as_bytes(), None)))) }
+    for limit in [1u64, 30, 100_000] { v.push(("xml::decode", format!("xml::decode: the first document read with start_with_limit({limit})"), Box::new(move || xml_walk(WALK_DOCS[0].1.as_bytes(), Some(limit))))) }
+    for doc in ["<a x=\"1&amp;2\"><b y=\"&lt;\">text &amp; more</b><c>opt</c></a>", "<a><b>text</b><c/></a>", "<a><b><d/></b><c/></a>", "<a><b>text</b><c/><e/></a>"] {
+        v.push(("xml::decode", format!("xml::decode: {doc:?} read with take_element / take_text / skip_opt_text and the _with_limit variants"), Box::new(move || xml_walk_fixed(doc.as_bytes()))));
+    }
+    // every message the constructors make: written by each entry point, and into a sink that fails
+    for (name, m) in menu {
+        v.push(("message written", format!("write_xml of {name} into a Vec"), Box::new(move || { let mut d = Vec::new(); let r = m.write_xml(&mut d).map_err(|e| e.to_string());
+            format!("{r:?} {} -- {}", text(&d), match wf_check(&d) { Ok(_) => "well-formed".to_string(), Err(e) => format!("NOT WELL-FORMED ({e})") }) })));
+        v.push(("message written", format!("to_xml_string of {name}"), Box::new(move || m.to_xml_string())));
+        if m.display().is_some() { v.push(("message written", format!("Display of {name}"), Box::new(move || m.display().map(|d| d.to_string()).unwrap_or_default()))) }
+        v.push(("message written into a failing sink", format!("write_xml of {name} into a sink that returns an error after 40 octets"), Box::new(move || { let mut sink = FaultySink::new(40, Fault::Error);
+            format!("{:?} {}", m.write_xml(&mut sink).map_err(|e| e.to_string()), text(&sink.got)) })));
+    }
+    // every kind of message parsed: captured documents, documents with references; rejections at two stages
+    let parsed = |p: Parser, d: &[u8]| format!("{:?}", AnyMsg::parse(p, d).map(|m| format!("{m:?} -- written again: {}", text(&m.to_vec()))));
+    for (name, p, doc) in captured { v.push(("message parsed", format!("{} parser on {name}", p.name()), Box::new(move || parsed(*p, doc)))) }
+    v.push(("message parsed", "publication parser on an error reply with references and a failed_pdu".into(), Box::new(move || parsed(Parser::Pub,
+        format!("<msg xmlns=\"{PUB_NS}\" version=\"4\" type=\"reply\"><report_error error_code=\"no_object_present\" tag=\"t&amp;1\"><error_text>text with \"quotes\" and 'apostrophes' ></error_text><failed_pdu><publish tag=\"x&quot;\" uri=\"rsync://h/m/a&amp;b\" hash=\"{}\">QUJD</publish></failed_pdu></report_error></msg>", fx.hashes[2]).as_bytes()))));
+    v.push(("message parsed", "child_request parser on a request with a tag full of references".into(), Box::new(move || parsed(Parser::Child, CHILD_WITH_TAG.as_bytes()))));
+    for (i, p) in PARSERS.into_iter().enumerate() {
+        let Some((name, _, doc)) = captured.iter().find(|c| c.1 == p) else { continue };
+        let next = PARSERS[(i + 1) % PARSERS.len()];
+        v.push(("message rejected", format!("{} parser on {name} cut to half", p.name()), Box::new(move || parsed(p, &doc[..doc.len() / 2]))));
+        v.push(("message rejected", format!("{} parser on {name} (another type's document)", next.name()), Box::new(move || parsed(next, doc))));
+    }
+    v.push(("message rejected", "provisioning parser on no octets at all".into(), Box::new(move || parsed(Parser::Prov, b""))));
+    v.push(("message rejected", "publication parser on \"<a/>\"".into(), Box::new(move || parsed(Parser::Pub, b"<a/>"))));
+    // through the CMS wrappers
+    for (f, bytes) in &files.cms {
+        v.push(("CMS wrapper", format!("ProvisioningCms::decode of {f}, validate_at"), Box::new(move || match prov::ProvisioningCms::decode(bytes.as_slice()) { Err(e) => format!("Err({e})"),
+            Ok(cms) => format!("{:?} {:?}", files.ta_key.as_ref().map(|k| cms.validate_at(k, Time::utc(2021, 6, 1, 0, 0, 0)).map_err(|e| e.to_string())), cms.message()) })));
+    }
+    v.push(("CMS wrapper", "PublicationCms::decode of pdu_200.der".into(), Box::new(move || format!("{:?}", publ::PublicationCms::decode(files.pdu200.as_slice()).map(|c| c.into_message()).map_err(|e| e.to_string())))));
+    v.push(("CMS wrapper", "ProvisioningCms::decode of pdu_200.der (another protocol's content)".into(), Box::new(move || format!("{:?}", prov::ProvisioningCms::decode(files.pdu200.as_slice()).map(|c| format!("{:?}", c.message())).map_err(|e| e.to_string())))));
+    v.push(("CMS wrapper", "ProvisioningCms::create of a revoke request, decoded again".into(), Box::new(move || { let signer = PoolSigner::load();
+        let m = prov::Message::revoke(hd("child"), hd("parent"), prov::RevocationRequest::new(prov::ResourceClassName::from("a\"b'c > d"), fx.keys[3]));
+        match prov::ProvisioningCms::create(m.clone(), &Kid(0), &signer) { Err(e) => format!("Err({e})"), Ok(cms) => format!("{:?}", prov::ProvisioningCms::decode(cms.to_bytes().as_ref()).map(|c| *c.message() == m).map_err(|e| e.to_string())) } })));
+    v.push(("CMS wrapper", "PublicationCms::create of a list reply, decoded again".into(), Box::new(move || { let signer = PoolSigner::load();
+        let m = publ::Message::list_reply(publ::ListReply::new(vec![publ::ListElement::new(fx.rsyncs[3].clone(), fx.hashes[2])]));
+        match publ::PublicationCms::create(m.clone(), &Kid(1), &signer) { Err(e) => format!("Err({e})"), Ok(cms) => format!("{:?}", publ::PublicationCms::decode(cms.to_bytes().as_ref()).map(|c| c.into_message() == m).map_err(|e| e.to_string())) } })));
+    // the value types: constructors accepting and refusing, Display, serde, the base64 flavours
+    fn r<T: std::fmt::Display, E: std::fmt::Display>(x: Result<T, E>) -> String { match x { Ok(v) => format!("Ok({v})"), Err(e) => format!("Err({e})") } }
+    v.push(("values", "Handle: from_str, TryFrom<String>, Display, serde".into(), Box::new(|| format!("{} {} {} {} {:?}", r(idx::Handle::<idx::Child>::from_str("Carol/1")), r(idx::Handle::<idx::Child>::from_str("a b")), r(idx::Handle::<idx::Parent>::try_from("x_y".to_string())),
+        r(idx::Handle::<idx::Parent>::try_from("\u{e9}".to_string())), serde_json::to_string(&hd::<idx::Myself>("a/b")).map_err(|e| e.to_string()).and_then(|s| serde_json::from_str::<idx::Handle<idx::Myself>>(&s).map(|h| h.to_string()).map_err(|e| e.to_string()))))));
+    v.push(("values", "ServiceUri: from_str, Display".into(), Box::new(|| ["https://h/x?a&b", "http://h/a?b=c&d='e'#f", "HTTP://h", "ftp://h", ""].iter().map(|s| r(idx::ServiceUri::from_str(s))).collect::<Vec<_>>().join(" "))));
+    v.push(("values", "ReportErrorCode, PayloadType: from_str, Display".into(), Box::new(|| format!("{} {} {} {}", r(publ::ReportErrorCode::from_str("xml_error")), r(publ::ReportErrorCode::from_str("nope")), r(prov::PayloadType::from_str("list_response")), r(prov::PayloadType::from_str("nope"))))));
+    v.push(("values", "ResourceClassName, RequestResourceLimit, NotPerformedResponse, ErrorReply: Display".into(), Box::new(move || { let mut er = publ::ErrorReply::for_error(publ::ReportError::with_code(publ::ReportErrorCode::XmlError)); er.add_error(publ::ReportError::with_code(publ::ReportErrorCode::OtherError));
+        format!("{} {} {} {} {er}", prov::ResourceClassName::from("a\"b'c > d"), fx.limit(6, 8, 8), fx.limit(0, 0, 0), prov::NotPerformedResponse::err_1201()) })));
+    v.push(("values", "publication::Base64: from_content, Display, serde".into(), Box::new(|| { let b = Base64::from_content(b"<&\"'>"); format!("{b} {:?} {:?}", serde_json::to_string(&b).map_err(|e| e.to_string()),
+        ["PCYiJz4=", "PCYi Jz4=", "A", "===="].iter().map(|s| serde_json::from_value::<Base64>(serde_json::Value::String(s.to_string())).map(|b| hex(&b.to_bytes())).map_err(|e| e.to_string())).collect::<Vec<_>>()) })));
+    v.push(("values", "rrdp::Hash, KeyIdentifier, uri::Rsync, uri::Https: from_str, Display".into(), Box::new(|| ["zz", "00", "rsync://h/m/a&b", "https://h/'"].iter().map(|s| format!("{} {} {} {}", r(Hash::from_str(s)), r(KeyIdentifier::from_str(s)), r(uri::Rsync::from_str(s)), r(uri::Https::from_str(s)))).collect::<Vec<_>>().join(" "))));
+    v.push(("values", "util::base64::Xml: encode, decode with white space, decode refusing".into(), Box::new(|| format!("{} {:?} {:?} {:?}", rpki::util::base64::Xml.encode(b"<&\"'>?~"), rpki::util::base64::Xml.decode("PCYi\n Jz4/\tfg==").map(|v| hex(&v)).map_err(|e| e.to_string()),
+        rpki::util::base64::Xml.decode("PCYiJz4_fg").map(|v| hex(&v)).map_err(|e| e.to_string()), rpki::util::base64::Xml.decode_bytes(b"QUJD").map(|v| hex(&v)).map_err(|e| e.to_string())))));
+    v.push(("values", "util::base64::Serde and Slurm: encode, decode".into(), Box::new(|| format!("{} {:?} {:?} {} {:?} {:?}", rpki::util::base64::Serde.encode(b"<&\"'>?~"), rpki::util::base64::Serde.decode("PCYiJz4/fg==").map(|v| hex(&v)).map_err(|e| e.to_string()),
+        rpki::util::base64::Serde.decode("PCYi Jz4/fg==").map(|v| hex(&v)).map_err(|e| e.to_string()), rpki::util::base64::Slurm.encode(b"<&\"'>?~"), rpki::util::base64::Slurm.decode("PCYiJz4_fg").map(|v| hex(&v)).map_err(|e| e.to_string()),
+        rpki::util::base64::Slurm.decode("PCYiJz4/fg==").map(|v| hex(&v)).map_err(|e| e.to_string())))));
+    v
+}
+
+const SUBJECTS_MARK: &str = "#### the subjects\n";
+
+fn first_op_block(i: usize, name: &str, observation: &str) -> String { format!("#### operation {i}: {name}\n{observation}\n") }
+
+/// Child-process mode of history.process: the operations `which` of the menu, in this order, before anything else; then the subjects.
+fn first_op_child(ctx: &Ctx, which: &[usize]) -> String {
+    let mut out = String::new();
+    {
+        let fx0 = Fx::load_opt(ctx, false);
+        let menu0 = message_menu_built(&fx0);
+        let files = Files::load();
+        let captured = captured_documents();
+        let ops = first_operations(&fx0, &menu0, &files, &captured);
+        for &i in which { match ops.get(i) { Some((_, n, f)) => out.push_str(&first_op_block(i, n, &observe(f.as_ref()))), None => out.push_str(&first_op_block(i, "not in the menu", "")) } }
+    }
+    let fx = Fx::load(ctx);
+    out.push_str(SUBJECTS_MARK);
+    out.push_str(&subject_dump(&Shared::load(&fx)));
+    out
+}
+
+fn space_process_history(ctx: &Ctx, sh: &Shared) {
+    let thorough = ctx.tier.is_thorough();
+    let sp = ctx.space("history.process",
+        "process-level history: state that is set once per process (a lazily built table, a OnceLock filled by whichever caller comes first) is decided by the FIRST operation of a process, and fresh threads share it. For every operation of a menu, a child process of this binary performs that operation as the very first XML operation of its process (before it: value constructors and DER decoding only, no XML read or written), then evaluates the history subjects (the round trip of one message of every type of the three protocols with special characters in every escaped position, rejections by each parser, Display of every value type, not-after times, CMS wrappers, identity certificates, value constructors). Oracles: every subject observation of the child equals the one made in this process, where thousands of operations came before; and the first operation's own result equals the result of the same operation evaluated last of all in this process (for the xml::encode operations the result is: Ok/Err, the verdict of this file's well-formedness checker and whether the text reads back as written -- not the octets, PCDATA may or may not escape '>' and quotes). Menu: rpki::xml::encode -- a text without / with every special character / empty, as str, [u8] and Display value, placed by Content::pcdata, Element::attr, Text::write_escaped in both TextEscape modes, Content::raw, Content::base64 (no attribute before the text except in the attr mode), into sinks failing after 9 and 14 octets, with set_indent; rpki::xml::decode -- documents with and without references, namespaces, declarations, cut, non-ASCII, with limits 1 / 30 / 100000, through every public method of Reader / Content / Element / AttrValue / Text; every message the constructors of the menu make written by write_xml, to_xml_string, Display and into a sink failing after 40 octets; every captured document of test-data/ca and the XML inside every captured CMS parsed, two documents with references in attributes and text, per parser a document cut to half and another type's document; CMS decode / validate_at / create; constructors, Display and serde of the value types; the base64 flavours; and no operation at all. thorough: additionally all ordered pairs of every 5th operation. non-trivial = child processes whose first operation is not 'nothing'");
+    let here = subject_dump(sh);
+    let n_subjects = here.matches("\n## ").count() as u64 + 1;
+    let exe = match std::env::current_exe() { Ok(e) => e, Err(e) => { ctx.machinery_error(format!("current_exe: {e}")); sp.done(false, "not run"); return } };
+    let fx0 = Fx::load_opt(ctx, false);
+    let menu0 = message_menu_built(&fx0);
+    let captured = captured_documents();
+    let ops = first_operations(&fx0, &menu0, &sh.files, &captured);
+    let mut runs: Vec<Vec<usize>> = (0..ops.len()).map(|i| vec![i]).collect();
+    let singles = runs.len();
+    if thorough { let sel: Vec<usize> = (1..ops.len()).step_by(5).collect(); for &a in &sel { for &b in &sel { if a != b { runs.push(vec![a, b]) } } } }
+    // the same operations in this process, last of all
+    let mine: Vec<String> = ops.iter().map(|(_, _, f)| on_fresh_thread(|| observe(f.as_ref()))).collect();
+    sp.evals(ops.len() as u64);
+    let fails = Ordered::new();
+    let start = |run: &[usize]| std::process::Command::new(&exe).arg("--c11-first-operation").arg(run.iter().map(|i| i.to_string()).collect::<Vec<_>>().join(",")).arg(ctx.tier.name()).output();
+    let names = |run: &[usize]| run.iter().map(|&i| ops[i].1.clone()).collect::<Vec<_>>().join("; then ");
+    runs.par_iter().enumerate().for_each(|(ri, run)| {
+        let mut out = match start(run) { Ok(o) => o, Err(e) => { ctx.machinery_error(format!("cannot start the child process for first operation {run:?}: {e}")); return } };
+        if out.status.code().is_none() {
+            // killed by a signal: once more; the same death twice is the library's doing
+            use std::os::unix::process::ExitStatusExt;
+            let first = out.status.signal();
+            match start(run) { Ok(o) => out = o, Err(e) => { ctx.machinery_error(format!("cannot start the child process for first operation {run:?}: {e}")); return } }
+            if out.status.code().is_none() && out.status.signal() == first {
+                fails.push((ri as u64) << 4, "C11.history.process.killed_by_signal", format!("a new process whose first operation is [{}]", names(run)), format!("the process was killed by signal {first:?}, twice in a row"));
+                return
+            }
+        }
+        let there = String::from_utf8_lossy(&out.stdout).into_owned();
+        let Some((first, subjects)) = there.split_once(SUBJECTS_MARK) else {
+            ctx.machinery_error(format!("child process for first operation {run:?} gave no subject observations (status {:?}): {}", out.status, trunc(&String::from_utf8_lossy(&out.stderr), 400))); return };
+        sp.evals(n_subjects + run.len() as u64);
+        if run != &[0] { sp.nontrivial(1) }
+        let failed_path = first.lines().any(|l| !l.starts_with("####") && (l.contains("Err(") || l.starts_with("PANIC")));
+        sp.outcome(if run == &[0] { "no-first-operation" } else if failed_path { "first-operation-took-an-error-path" } else { "first-operation-succeeded" });
+        let expected: String = run.iter().map(|&i| first_op_block(i, &ops[i].1, &mine[i])).collect();
+        if first != expected {
+            let (a, b): (Vec<&str>, Vec<&str>) = (first.split("#### ").collect(), expected.split("#### ").collect());
+            let k = a.iter().zip(&b).position(|(x, y)| x != y).unwrap_or(0);
+            fails.push((ri as u64) << 4, "C11.history.process.first_operation", format!("a new process whose first operations are [{}]: the result of {}", names(run), a.get(k).and_then(|x| x.lines().next()).unwrap_or("?")),
+                format!("observed {} -- the same operation evaluated last of all in the explorer's process gives {}", trunc(&first_difference(a.get(k).unwrap_or(&""), b.get(k).unwrap_or(&"")), 400), trunc(&first_difference(b.get(k).unwrap_or(&""), a.get(k).unwrap_or(&"")), 400)));
+        }
+        if subjects != here {
+            let (a, b): (Vec<&str>, Vec<&str>) = (here.split("## ").collect(), subjects.split("## ").collect());
+            // the witness: the first differing subject whose observation says in words what went wrong, else the first differing one
+            const LOUD: [&str; 5] = ["NOT WELL-FORMED", "DOES NOT PARSE BACK", "PARSES BACK UNEQUAL", "DIFFERS", "PANIC"];
+            let differing: Vec<usize> = (0..a.len().max(b.len())).filter(|&k| a.get(k) != b.get(k)).collect();
+            let loud = |k: usize| LOUD.iter().find(|m| b.get(k).is_some_and(|x| x.contains(**m)) && !a.get(k).is_some_and(|x| x.contains(**m)));
+            let k = differing.iter().copied().find(|&k| loud(k).is_some()).or(differing.first().copied()).unwrap_or(0);
+            let said = loud(k).and_then(|m| b[k].find(m).map(|at| format!("the written message {}; ", trunc(&b[k][at..], 160)))).unwrap_or_default();
+            fails.push((ri as u64) << 4 | 1, "C11.history.process.subjects", format!("in a new process, after [{}] as the first operation: {}", names(run), a.get(k).or(b.get(k)).and_then(|x| x.lines().next()).unwrap_or("?")),
+                format!("{said}{} of {} subjects differ; observed {} -- in the explorer's process the same subject gives {}", differing.len(), a.len().max(b.len()) - 1, trunc(&first_difference(b.get(k).unwrap_or(&""), a.get(k).unwrap_or(&"")), 300), trunc(&first_difference(a.get(k).unwrap_or(&""), b.get(k).unwrap_or(&"")), 300)));
+        }
+    });
+    fails.flush(ctx, &sp);
+    let mut kinds: BTreeMap<&'static str, u64> = BTreeMap::new();
+    for (k, _, _) in &ops { *kinds.entry(k).or_insert(0) += 1 }
+    sp.set("first_operations_by_kind", serde_json::json!(kinds));
+    sp.set("first_operations", serde_json::json!(ops.iter().map(|o| o.1.clone()).collect::<Vec<_>>()));
+    sp.sample_str(|| ops[2].1.clone());
+    sp.sample_str(|| ops[ops.len() / 2].1.clone());
+    sp.done(true, &format!("{singles} first operations x {n_subjects} subjects, one child process each{}", if thorough { format!("; {} ordered pairs of every 5th operation", runs.len() - singles) } else { String::new() }));
+}
+
 //--- call parameters
 
 /// `padded` must be `canon` itself or `canon` padded with `fill` to `width` on the side(s) the alignment says.
@@ -4148,6 +4502,13 @@ fn space_ownership(ctx: &Ctx, sh: &Shared) {
 fn main() {
     let ctx = Ctx::new("C11", "exploration");
     // child-process mode of environment.timezone: print the subject observations and leave
+    let args: Vec<String> = std::env::args().collect();
+    // child-process mode of history.process: the named operations first, then the subject observations
+    if let Some(pos) = args.iter().position(|a| a == "--c11-first-operation") {
+        let which: Vec<usize> = args.get(pos + 1).map(|s| s.split(',').filter_map(|x| x.parse().ok()).collect()).unwrap_or_default();
+        print!("{}", first_op_child(&ctx, &which));
+        return;
+    }
     if std::env::args().any(|a| a == "--c11-subject-dump") {
         let fx = Fx::load(&ctx);
         print!("{}", subject_dump(&Shared::load(&fx)));
@@ -4176,7 +4537,7 @@ fn main() {
     // sequences, environment, call parameters, shared values: a panic of the explorer code here can only come
     // from the library misbehaving on the menu messages (each group is seen to complete on the unchanged tree)
     let sh = Shared::load(&fx);
-    let groups: [(&str, fn(&Ctx, &Shared)); 6] = [("history", space_history), ("environment", space_environment), ("display", space_display), ("sinks", space_sinks),
+    let groups: [(&str, fn(&Ctx, &Shared)); 7] = [("history", space_history), ("environment", space_environment), ("process", space_process_history), ("display", space_display), ("sinks", space_sinks),
         ("handed_out", space_handed_out), ("ownership", space_ownership)];
     for (name, f) in groups {
         if let Err(p) = guard(|| f(&ctx, &sh)) { ctx.fail(&format!("C11.{name}.nopanic"), format!("space group {name}"), format!("the explorer was stopped by a panic: {p}")) }
